@@ -157,6 +157,23 @@ pub(crate) fn ends_with_line_comment(s: &str) -> bool {
     last_comment_start.map_or(false, |i| s[i..].starts_with("//"))
 }
 
+/// Returns true if the passed string ends inside a line comment, so that whatever is appended
+/// to it on the same line would become part of that comment.
+pub(crate) fn ends_inside_line_comment(s: &str) -> bool {
+    let mut last_comment_start = None;
+    let mut last_kind = FullCodeCharKind::Normal;
+    for (kind, (i, _)) in CharClasses::new(s.char_indices()) {
+        if kind == FullCodeCharKind::StartComment {
+            last_comment_start = Some(i);
+        }
+        last_kind = kind;
+    }
+    matches!(
+        last_kind,
+        FullCodeCharKind::StartComment | FullCodeCharKind::InComment
+    ) && last_comment_start.map_or(false, |i| s[i..].starts_with("//"))
+}
+
 /// Combine `prev_str` and `next_str` into a single `String`. `span` may contain
 /// comments between two strings. If there are such comments, then that will be
 /// recovered. If `allow_extend` is true and there is no comment between the two
